@@ -56,6 +56,10 @@ CHECKS = {
             "runtime monitoring of schedules: differential runs across io-cache depths and seeded schedule perturbation (source hooks), ThreadSanitizer/ASan on io-ring and hostile scan workloads, offline checker of the io.c hook event trace (slot ownership, exactly-once, order), watchdog + SIGINT for termination",
             "From one restored image sync/scrub are run single-threaded and with 3..128 ring slots under seeded yields/sleeps injected between critical sections; parity bytes, decoded state and error sets must equal the single-thread reference. Every run's hook trace (one atomic sequence counter) is checked for overlapping slot ownership, positions processed exactly once and in order, and worker silence after join. TSan (real SIMD and portable-C builds) and ASan watch the same workloads plus a scan workload built to hit the copy-detection window. Evidence reports events, hand-overs and distinct interleavings seen.",
             "Interleavings are sampled, not enumerated: the exhaustive exploration of a ring-protocol model named in the property's observe_at is model checking and is not done (DESIGN.md section 6). Termination means 'ended within the watchdog on every run'. State comparison ignores free-space counters and inode numbers."),
+    "C20": ("exploration",
+            "runtime monitor: every derived view (list tags and stdout, dup, status, pool tree) compared with the independently decoded content file and the harness's byte-level model; escaping inverted; per-tag line counts as a forged-line detector",
+            "Arrays with hostile and tag-lookalike names, duplicate groups across disks, zero sub-second stamps, pre-existing pool contents, with and without a share prefix. list/dup/status log tags and stdout are parsed back (esc_tag / shell escaping inverted) and must give exactly the recorded names, sizes, links; dup pairs must induce the content-equality partition; the pool dir must hold exactly one resolving link per recorded name with stale links and empty dirs gone and foreign files kept.",
+            "dup asserted only for hash size 16 outside a migration. Open findings F7b/F7c (newline in names on stdout) are reported as KNOWN-FINDING."),
 }
 
 ALL = ["C%02d" % i for i in range(1, 21)]
